@@ -122,7 +122,7 @@ def try_activate(fn, env, text, strict_first=False):
         outcome = type(ex).__name__
     clean = (orig is None) or (fn.__code__ is orig)
     st = getattr(fn, "__ptera_stack__", None)
-    if st is not None and st.instrument_count != 0:
+    if st is not None and getattr(st, "instrument_count", 0) != 0:
         clean = False
     return outcome, prov, clean
 
